@@ -210,6 +210,7 @@ sim::CaseResult ConcSim::run(const sim::Options &, const Json &plan)
         }
     }
     RecordingHandler handler;
+    ompl::msg::setLogLevel(ompl::msg::LOG_INFO);
     if (surface == "log" || surface == "mixed")
         ompl::msg::useOutputHandler(&handler);
     ob::PlannerTerminationCondition ptc([] { return false; });
@@ -347,8 +348,17 @@ sim::CaseResult ConcSim::run(const sim::Options &, const Json &plan)
         }
         else if (s == "log")
         {
-            OMPL_INFORM("thread %d op %ld", tid, a);
-            me.logCalls++;
+            // logging, and (re)configuring the logger from another thread while others log: all documented to go
+            // through the logger's own lock
+            if (k == 0)
+                ompl::msg::useOutputHandler(&handler);  // the same handler again: no observable change
+            else if (k == 1)
+                ompl::msg::setLogLevel(ompl::msg::LOG_INFO);
+            else
+            {
+                OMPL_INFORM("thread %d op %ld", tid, a);
+                me.logCalls++;
+            }
         }
         else if (s == "ptc")
         {
